@@ -152,6 +152,22 @@ pub fn run_case(case: &Case) -> (Vec<(String, String)>, Info) {
         if d.dead {
             break;
         }
+        // every block of these histories is honestly produced on its branch: none may be refused,
+        // and whenever the tip did anything but advance by this block the ledger must still be the
+        // replay of the tip's chain (rebroadcast inputs restored on unwind, outputs removed)
+        let plain_extension = outs.len() == 1 && outs[0].tip_after.1 == b.hash && outs[0].tip_before.1 == b.previous_block_hash;
+        if !plain_extension {
+            if outs.iter().any(|o| o.outcome.name() == "invalid") && b.id > gp + 1 {
+                v.push(("C13|valid_block_past_window_edge_refused".into(), format!("block id {} (honestly produced on its branch, {} rebroadcast transactions) was refused", b.id, b.transactions.iter().filter(|t| t.transaction_type == TransactionType::ATR).count())));
+            }
+            let max_id = built.blocks.iter().map(|x| x.id).max().unwrap_or(1) + 1;
+            for (suffix, what) in crate::observe::check_consistency(&d.node, &table, max_id) {
+                v.push((format!("C13|ledger_not_replay_of_chain|{}", suffix), format!("after the delivery of block id {} (not a plain extension of the tip): {}", b.id, what)));
+            }
+            if !v.is_empty() {
+                break;
+            }
+        }
         for o in &outs {
             if o.tip_after.1 == o.tip_before.1 {
                 continue;
@@ -274,9 +290,6 @@ pub fn arb_case(max_blocks: usize) -> impl Strategy<Value = Case> {
             hist.ncfg.gp = gp;
             hist.issuance.extend([(0u8, 400_000_000u64), (1, 500_000_000), (2, 600_000_000), (3, 70_000_000)]);
             hist.issuance.extend(dust); // tiny outputs: dust once a fee-per-byte level exists
-            if hist.issuance.iter().any(|(_, a)| *a >= (1u64 << 36)) {
-                hist.treasury = 0; // behind known finding F11
-            }
             // forks rarely, chains long: the window must wrap
             for (i, b) in hist.blocks.iter_mut().enumerate() {
                 if i % 7 != 3 {
@@ -284,6 +297,18 @@ pub fn arb_case(max_blocks: usize) -> impl Strategy<Value = Case> {
                 }
                 for t in b.txs.iter_mut() {
                     t.fee = t.fee.max(50_000);
+                }
+            }
+            // every ninth position: a sibling of the previous block followed by its child, i.e. a
+            // competing branch that overtakes the tip: the tip block (with its rebroadcasts, once the
+            // window has wrapped) is unwound and the sibling rebroadcasts the same expiring outputs
+            let n = hist.blocks.len();
+            for i in 1..n {
+                if i % 9 == 5 && i + 1 < n {
+                    hist.blocks[i].parent = None;
+                    hist.blocks[i].back = Some(1);
+                    hist.blocks[i + 1].parent = None;
+                    hist.blocks[i + 1].back = None;
                 }
             }
             Case { hist }
